@@ -1,13 +1,13 @@
 import N0Verif.Py.Basic
 import N0Verif.Proto
 /-!
-  Model of `n0struct_xml.n0xml` (n0struct_xml.py, with fix patches C18-a, C18-b, C18-c and C18-d
-  applied): `_parse_node`, `_get`/`get`/`get_attrib`, `findall` with its inner `recurse`,
+  Model of `n0struct_xml.n0xml` (n0struct_xml.py, with fix patches C18-a, C18-b, C18-c, C18-d and
+  C18-e applied; C18-f only concerns object identity of the returned path lists): `_parse_node`, `_get`/`get`/`get_attrib`, `findall` with its inner `recurse`,
   `findfirst`, `__contains__`.
 
   The input is the element tree `xml.etree.ElementTree` reports (`Elem`: tag, text, attrib,
   children); the XML parser itself is not modelled.  The step regex of `findall` is replaced by
-  the hand-written parser `parseStep` (validated against `re.match` by stream `nxml.step`).
+  the hand-written parser `parseStep` (validated against `re.fullmatch` by stream `nxml.step`).
 
   `recurse` is modelled without fuel: the recursion into the document is structural (every child
   is paired with the closure "recurse into this child", `kidFns`), the `while` loop that restarts
@@ -168,11 +168,23 @@ def getAttrS (root : XVal) (xp : Str) : PyM (Option Attr) :=
 
 /-! ### the step regex of `findall`
 
-`([a-zA-Z0-9_]+|\*\*|\*)(?:\[(\d+|\*)\])?(?:\[(text)(\(\))?(==|!=|<>|=)['\"]?([^'\"]+)['\"]?\])?`
-used with `re.match` (prefix match).  ASCII scope. -/
+`(\w[\w.\-]*|\*\*|\*)(?:\[(\d+|\*)\])?(?:\[(text)(\(\))?(==|!=|<>|=)['\"]?([^'\"]+)['\"]?\])?`
+used with `re.fullmatch` (fix C18-e: the whole step must be read; before, `re.match` with the tag
+class `[a-zA-Z0-9_]+` silently dropped whatever followed the alphanumeric prefix of a tag).
+Scope: ASCII and the Latin letters U+00C0–U+024F (`xpInScope`). -/
 
+/-- the non-ASCII letters the model knows: Latin-1 Supplement, Latin Extended-A and -B
+(U+00C0–U+024F without `×` and `÷`).  `\w` matches every one of them, `\d` and `\s` none, and
+`.lower()` of a string that contains one is never one of the ASCII words `none`/`null`/`nul`. -/
+def isLatinLetter (c : Char) : Bool :=
+  0xC0 ≤ c.toNat && c.toNat ≤ 0x24F && c.toNat != 0xD7 && c.toNat != 0xF7
+
+/-- `\w` (inside the model's scope) -/
 def isWord (c : Char) : Bool :=
-  ('a' ≤ c && c ≤ 'z') || ('A' ≤ c && c ≤ 'Z') || ('0' ≤ c && c ≤ '9') || c = '_'
+  ('a' ≤ c && c ≤ 'z') || ('A' ≤ c && c ≤ 'Z') || ('0' ≤ c && c ≤ '9') || c = '_' || isLatinLetter c
+
+/-- `[\w.\-]` -/
+def isNameChar (c : Char) : Bool := isWord c || c = '.' || c = '-'
 
 def isQuote (c : Char) : Bool := c = '\'' || c = '"'
 
@@ -186,14 +198,18 @@ def star : Str := ['*']
 def star2 : Str := ['*', '*']
 def dotdot : Str := ['.', '.']
 
+/-- group 1: `\w[\w.\-]*` (greedy; what follows must be `[` or the end, so no shorter tag can
+succeed), else `**`, else `*` -/
 def parseTag (s : Str) : Option (Str × Str) :=
-  match s.takeWhile isWord with
-  | _ :: _ => some (s.takeWhile isWord, s.dropWhile isWord)
-  | [] =>
-    match s with
-    | '*' :: '*' :: r => some (star2, r)
-    | '*' :: r => some (star, r)
-    | _ => none
+  match s with
+  | [] => none
+  | c :: r =>
+    if isWord c then some (c :: r.takeWhile isNameChar, r.dropWhile isNameChar)
+    else
+      match s with
+      | '*' :: '*' :: r => some (star2, r)
+      | '*' :: r => some (star, r)
+      | _ => none
 
 def parseIdx (s : Str) : Option (Option Nat) × Str :=
   match s with
@@ -204,22 +220,23 @@ def parseIdx (s : Str) : Option (Option Nat) × Str :=
     | _, _ => (none, s)
   | _ => (none, s)
 
-/-- the longest proper prefix of `R` (at least one character) that is followed by `]` -/
-def lastBr : Str → Option Str → Str → Option Str
-  | _, best, [] => best
-  | acc, best, c :: s =>
-    lastBr (c :: acc) (if c = ']' ∧ !acc.isEmpty then some acc.reverse else best) s
+/-- an optional quote at the head of a string is dropped -/
+def dropQuote (s : Str) : Str :=
+  match s with
+  | q :: r => if isQuote q then r else s
+  | [] => s
 
-/-- `['\"]?([^'\"]+)['\"]?\]` with the regex engine's backtracking: group 6 -/
+/-- `['\"]?([^'\"]+)['\"]?\]` matched **to the end of the step**: group 6.  The text is
+`q? V q? ]` with `V` non-empty and free of quotes (a quote at either end can only be the optional
+one: `V` cannot hold it). -/
 def condTail (s : Str) : Option Str :=
-  let s4 := match s with
-    | q :: r => if isQuote q then r else s
-    | [] => s
-  let run := s4.takeWhile (fun c => !isQuote c)
-  match run, s4.dropWhile (fun c => !isQuote c) with
-  | _ :: _, _ :: ']' :: _ => some run
-  | _, _ => lastBr [] none run
+  match (dropQuote s).reverse with
+  | ']' :: rv =>
+    let v := dropQuote rv
+    if v.isEmpty || v.any isQuote then none else some v.reverse
+  | _ => none
 
+/-- `\[(text)(\(\))?(==|!=|<>|=)…\]` to the end of the step -/
 def parseCond (s : Str) : Option (Str × Str) :=
   match s with
   | '[' :: 't' :: 'e' :: 'x' :: 't' :: r =>
@@ -237,13 +254,18 @@ def parseCond (s : Str) : Option (Str × Str) :=
     | _ => none
   | _ => none
 
-/-- `re.match(<step regex>, s)`; `none` = no match -/
+/-- `re.fullmatch(<step regex>, s)`; `none` = no match (`ValueError` in `recurse`): after the tag
+and the optional index either nothing is left or the rest is one condition up to the end -/
 def parseStep (s : Str) : Option Step :=
   match parseTag s with
   | none => none
   | some (tag, r) =>
-    let (idx, r1) := parseIdx r
-    some { tag := tag, idx := idx, cond := parseCond r1 }
+    match parseIdx r with
+    | (idx, []) => some { tag := tag, idx := idx, cond := none }
+    | (idx, c :: r1) =>
+      match parseCond (c :: r1) with
+      | some cd => some { tag := tag, idx := idx, cond := some cd }
+      | none => none
 
 /-! ### `findall.recurse` -/
 
@@ -478,8 +500,10 @@ def containsL (root : XVal) (sought : List Str) : PyM Bool :=
 
 def contains (root : XVal) (xp : Str) : PyM Bool := containsL root (xpSteps xp)
 
-/-- scope of the expression side of the model: ASCII (the regex classes `\d`, `.lower()` and
-`int()` are modelled for ASCII only), bounded length (`int()` refuses > 4300 digits) -/
-def xpInScope (xp : Str) : Bool := xp.all (fun c => c.toNat < 128) && xp.length ≤ 2000
+/-- scope of the expression side of the model: ASCII and the Latin letters U+00C0–U+024F (the
+regex classes `\w`/`\d`, `.lower()` and `int()` are modelled for these only), bounded length
+(`int()` refuses > 4300 digits) -/
+def xpInScope (xp : Str) : Bool :=
+  xp.all (fun c => c.toNat < 128 || isLatinLetter c) && xp.length ≤ 2000
 
 end N0.NXml
